@@ -274,6 +274,68 @@ theorem isZT_sin (cb sb cc sc : K) (h : cb ^ 2 + sb ^ 2 = 1) :
     ring
 
 
+theorem mk_gate (x : ℕ → K) (g : ℕ) :
+    PowerSeries.mk (fun n => if g ≤ n then x n else 0)
+      = PowerSeries.mk x - toPS ((List.range g).map x) := by
+  ext n
+  simp only [coeff_mk, map_sub, toPS]
+  by_cases h : n < g
+  · have : ¬ g ≤ n := by omega
+    rw [List.getD_eq_getElem _ _ (by simpa using h)]
+    simp [this]
+  · have : g ≤ n := by omega
+    rw [List.getD_eq_default _ _ (by simpa using this)]
+    simp [this]
+
+theorem isZT_gstep (isSin : Bool) (g : ℤ) (cb sb cc sc : K) (h : cb ^ 2 + sb ^ 2 = 1) :
+    IsZT (fun n : ℕ => (Base.gated isSin false g cb sb cc sc).val n)
+      (ztBase (.gated isSin false g cb sb cc sc)) := by
+  have hx : ∀ n : ℕ, (Base.gated isSin false g cb sb cc sc).val n
+      = if g.toNat ≤ n then trigVal isSin cb sb cc sc n else 0 := by
+    intro n
+    have : (g ≤ (n : ℤ)) ↔ g.toNat ≤ n := by omega
+    simp only [Base.val, this]
+    split_ifs <;> simp
+  have e : (fun n : ℕ => (Base.gated isSin false g cb sb cc sc).val n)
+      = fun n : ℕ => if g.toNat ≤ n then (fun m : ℕ => trigVal isSin cb sb cc sc m) n else 0 := funext hx
+  rw [e]
+  cases isSin with
+  | false =>
+    obtain ⟨_, h1, h2⟩ := isZT_cos cb sb cc sc h
+    have ev : (fun n : ℕ => (Base.cos cb sb cc sc).val n) = fun m : ℕ => trigVal false cb sb cc sc m := by
+      funext n; simp [Base.val, trigVal]
+    rw [ev] at h1
+    refine ⟨rfl, ?_, by simp [ztBase]⟩
+    simp only [ztBase, Bool.false_eq_true, ↓reduceIte, toPS_psub, toPS_pmul, mk_gate, mul_sub] at h1 ⊢
+    rw [h1]; rfl
+  | true =>
+    obtain ⟨_, h1, h2⟩ := isZT_sin cb sb cc sc h
+    have ev : (fun n : ℕ => (Base.sin cb sb cc sc).val n) = fun m : ℕ => trigVal true cb sb cc sc m := by
+      funext n; simp [Base.val, trigVal]
+    rw [ev] at h1
+    refine ⟨rfl, ?_, by simp [ztBase]⟩
+    simp only [ztBase, ↓reduceIte, toPS_psub, toPS_pmul, mk_gate, mul_sub] at h1 ⊢
+    rw [h1]; rfl
+
+theorem isZT_gimp (isSin : Bool) (g : ℤ) (hg : 0 ≤ g) (cb sb cc sc : K) :
+    IsZT (fun n : ℕ => (Base.gated isSin true g cb sb cc sc).val n)
+      (ztBase (.gated isSin true g cb sb cc sc)) := by
+  have h1 : IsZT (fun n : ℕ => trigVal isSin cb sb cc sc g * (Base.imp g : Base K).val n)
+      (ZR.scale (trigVal isSin cb sb cc sc g) (ztBase (.imp g))) :=
+    (isZT_imp (K := K) g hg).scale (trigVal isSin cb sb cc sc g)
+  have e : ZR.scale (trigVal isSin cb sb cc sc g) (ztBase (.imp g))
+      = ztBase (.gated isSin true g cb sb cc sc) := by
+    simp [ztBase, ZR.scale, hg]
+  have ef : (fun n : ℕ => (Base.gated isSin true g cb sb cc sc).val n)
+      = fun n : ℕ => trigVal isSin cb sb cc sc g * (Base.imp g : Base K).val n := by
+    funext n
+    simp only [Base.val]
+    split_ifs with h
+    · rw [h]
+    · ring
+  rw [ef, ← e]
+  exact h1
+
 /-- side condition under which the closed form of a base sequence is claimed: delays are
     non-negative (advances are finding F17); `cos b, sin b` lie on the unit circle -/
 def Base.ok : Base K → Prop
@@ -282,6 +344,8 @@ def Base.ok : Base K → Prop
   | .one => True
   | .cos cb sb _ _ => cb ^ 2 + sb ^ 2 = 1
   | .sin cb sb _ _ => cb ^ 2 + sb ^ 2 = 1
+  | .gated _ true g _ _ _ _ => 0 ≤ g
+  | .gated _ false _ cb sb _ _ => cb ^ 2 + sb ^ 2 = 1
 
 theorem isZT_base (b : Base K) (h : b.ok) : IsZT (fun n : ℕ => b.val n) (ztBase b) := by
   cases b with
@@ -290,6 +354,10 @@ theorem isZT_base (b : Base K) (h : b.ok) : IsZT (fun n : ℕ => b.val n) (ztBas
   | one => exact isZT_one
   | cos cb sb cc sc => exact isZT_cos cb sb cc sc h
   | sin cb sb cc sc => exact isZT_sin cb sb cc sc h
+  | gated isSin byImp g cb sb cc sc =>
+    cases byImp with
+    | true => exact isZT_gimp isSin g h cb sb cc sc
+    | false => exact isZT_gstep isSin g cb sb cc sc h
 
 theorem IsZT.iterMulN {x : ℕ → K} {r : ZR K} (h : IsZT x r) (p : ℕ) :
     IsZT (fun n => (n : K) ^ p * x n) (iter ZR.mulN p r) := by
@@ -757,11 +825,12 @@ theorem dft_term_sound (numeric : Bool) (t : CTerm K) (N : ℕ) (q : K) (hq : q 
     (h2 : (1 + 1 : K) ≠ 0) (hok : dftOk numeric N t)
     (v : K) (hv : dftTerm numeric t N q = some v) :
     v = dftSum (fun n => t.val n) q N := by
-  rcases hb : t.base with d | d | _ | _ | _
+  rcases hb : t.base with d | d | _ | _ | _ | _
   · exact dft_imp_sound numeric t N q d hb v hv
   · exact dft_steplike_sound numeric t N q hq h2 d.toNat (Or.inr ⟨d, hb, rfl⟩)
       (by simpa [dftOk, hb] using hok) v hv
   · exact dft_steplike_sound numeric t N q hq h2 0 (Or.inl ⟨hb, rfl⟩) (by simp) v hv
+  · simp [dftTerm, hb] at hv
   · simp [dftTerm, hb] at hv
   · simp [dftTerm, hb] at hv
 
